@@ -282,6 +282,22 @@ def install_std_extras(eng):
     S(r"^Result::<.*>::or_else::<", per_variant(lambda e, st, c, v, a: Outcome(v) if v.vname == "Ok" else call_closure(e, st, c, a[1], [v.fields[0]], lambda s2, r: r)))
     S(r"^Result::<.*>::unwrap_or_else::<", per_variant(lambda e, st, c, v, a: Outcome(v.fields[0]) if v.vname == "Ok" else call_closure(e, st, c, a[1], [v.fields[0]], lambda s2, r: r)))
 
+    def s_take(eng, st, callee, args, dty):
+        r = args[0]
+        v = deref_ref(eng, st, r)
+        if isinstance(r, RefV):
+            eng.write(st, r.cell, r.path, AggV(v.ty if isinstance(v, AggV) else "Option", 0, [], "None"))
+        return Outcome(v)
+    S(r"^Option::<.*>::take$", s_take)
+
+    def s_replace(eng, st, callee, args, dty):
+        r = args[0]
+        v = deref_ref(eng, st, r)
+        eng.write(st, r.cell, r.path, AggV("Option", 1, [args[1]], "Some"))
+        return Outcome(v)
+    S(r"^Option::<.*>::replace$", s_replace)
+    S(r"^Option::<.*>::(as_ref|as_mut|as_deref)$", per_variant(lambda e, st, c, v, a: Outcome(some(v.fields[0]) if v.vname == "Some" else none())))
+
     # list-like values (Vec / slice with a concrete length per path)
     S(r"^<Vec<.*> as Deref(Mut)?>::deref(_mut)?$|^Vec::<.*>::as_(mut_)?slice$", lambda e, st, c, a, d: Outcome(a[0]))
     S(r"^(Vec::<.*>|core::slice::<impl \[.*\]>)::len$", lambda e, st, c, a, d: Outcome(IntV(len(items_of(e, st, a[0])), "usize")))
